@@ -68,7 +68,7 @@ def run(kind, sc, desc):
 
 
 # algorithm x hash mode x token profile
-profiles = [("pub-attrs", dict(pub_attrs=True, ec_wrapped=True)), ("priv-without-pub-attrs", dict(pub_attrs=False, ec_wrapped=True)),
+profiles = [("pub-attrs", dict(pub_attrs=True, ec_wrapped=True)), ("exponent-with-leading-zeros", dict(pub_attrs=True, ec_wrapped=True, attr_pad=2)), ("priv-without-pub-attrs", dict(pub_attrs=False, ec_wrapped=True)),
             ("bare-ec-point", dict(pub_attrs=True, ec_wrapped=False)), ("bare-ec-no-pub-attrs", dict(pub_attrs=False, ec_wrapped=False))]
 for alg in (8, 10, 13, 14):
     for hh in (None, False, True):
